@@ -1,5 +1,6 @@
 import SpdxVerif.Props.C01
 import SpdxVerif.Props.Consts
+import SpdxVerif.Props.C01Text
 #print axioms Spdx.C01.verdict_eq_eval
 #print axioms Spdx.C01.verdictBy_eq_eval
 #print axioms Spdx.C01.verdict_iff_alternative_covered
@@ -7,3 +8,10 @@ import SpdxVerif.Props.Consts
 #print axioms Spdx.C01.verdict_or
 #print axioms Spdx.C01.satisfies_spec
 #print axioms Spdx.ConstsPin.expandAnd_ints
+#print axioms Spdx.C01.parse_rendered
+#print axioms Spdx.C01.canonical_rewrite
+#print axioms Spdx.C01.satisfies_rendered
+#print axioms Spdx.C01.or_and_text
+#print axioms Spdx.C01.and_or_text
+#print axioms Spdx.C01.paren_or_and_text
+#print axioms Spdx.C07.satisfies_eq
